@@ -40,6 +40,21 @@ def gen(rng, tier):
     for codec in iu.CODECS:
         for blocked in (True, False):
             cases.append({'kind': 'writer', 'codec': codec, 'blocked': blocked, 'msgs': [iu.dict_text({'MTI': '1240', 'DE2': '4444555566667777'})]})
+    # records whose bytes end exactly on, just before and just after a 1012-byte payload boundary (the length prefix, the
+    # record body or the terminator completing a block), alone and after a short first record
+    ends = [k * B + d for k in (1, 2, 3) for d in (-6, -5, -4, -3, -2, -1, 0, 1, 2, 3, 4, 5)]
+    if tier == 'quick':
+        ends = rng.sample(ends, 14) + [2 * B, 2 * B - 4, B, B - 4]
+    for e in ends:
+        for first in (0, rng.choice([30, 200, 990])):
+            n = e - 4 - (first + 4 if first else 0)
+            if not 24 <= n <= 4028 or (first and first < 24):
+                continue
+            codec = rng.choice(['latin_1', 'cp500'])
+            msgs = ([iu.dict_text(iu.sized_message(rng, first))] if first else []) + [iu.dict_text(iu.sized_message(rng, n))]
+            if rng.random() < 0.5:
+                msgs.append(iu.dict_text({'MTI': '1240', 'DE2': '4444555566667777'}))
+            cases.append({'kind': 'writer', 'codec': codec, 'blocked': True, 'msgs': msgs})
     # invalid classes
     base = b'\x00\x00\x00\x22' + b'1240' + bytes.fromhex('c0000000000000000000000000000000') + b'164444555566667777' + b'\x00' * 4
     for n in (0, 1, 23, 24, 25):
